@@ -6,10 +6,13 @@ CONSTANTS Key = {"a1", "a2", "s1"}
           AsyncModes = {TRUE, FALSE}
           RelinkSiblings = TRUE
           Depth = 16
+          MaxDiffKeys = 3
+          SlotKeys = {"s1"}
           MaxReads = 2
 INVARIANTS TypeOK LiveReadable ReadCorrect NoSpuriousStale LookupSound DescendantsExact Rooted DiskContent DiskAligned ChainsSound
 CONSTRAINT Emit
 ACTION_CONSTRAINT AtomicCap
 ACTION_CONSTRAINT SimBias
 ACTION_CONSTRAINT FinalStep
+ACTION_CONSTRAINT NoWipeWhileFlushing
 CHECK_DEADLOCK FALSE
